@@ -66,6 +66,22 @@ Section Compose.
         else do ps <- compose_parts ref total seq' rest; Ok (mkpart u p :: ps)
     end.
 
+  (* The Go function has NAMED results: when the loop stops with an error the parts appended so far are returned together
+     with it.  [compose_parts_done]: those parts (all of them when there is no error). *)
+  Fixpoint compose_parts_done (ref total seq : N) (segs : list (list N)) : list part :=
+    match segs with
+    | [] => []
+    | s :: rest =>
+        match enc s with
+        | Ok p =>
+            let seq' := (seq + 1) mod 256 in
+            let u := [concat_ie ref total seq'] in
+            if Nat.ltb max_sm_len (udh_len u + plen p) then []
+            else mkpart u p :: compose_parts_done ref total seq' rest
+        | _ => []
+        end
+    end.
+
   Definition compose (ref : N) (t : list N) : outcome (list part) :=
     if Nat.leb (text_len w t) max_sm_len then
       (* single part, no header *)
@@ -75,6 +91,12 @@ Section Compose.
       do segs <- split w (max_sm_len - 1 - hdr_len ref) t;
       if Nat.ltb 0xFE (length segs) then Err ECount           (* ErrMultipartTooMuch *)
       else compose_parts ref (N.of_nat (length segs) mod 256) 0 segs.
+  (* what comes back in the multi-part path: (the outcome, the parts returned with it) *)
+  Definition compose_returned_multi (ref : N) (t : list N) : list part :=
+    match split w (max_sm_len - 1 - hdr_len ref) t with
+    | Ok segs => if Nat.ltb 0xFE (length segs) then [] else compose_parts_done ref (N.of_nat (length segs) mod 256) 0 segs
+    | _ => []
+    end.
 End Compose.
 Arguments mkpart {P} _ _.
 Arguments pt_udh {P} _.
@@ -168,3 +190,7 @@ Definition udh_obs_ok (u : udh) (len : N) (ch : option (N * N * N)) : bool :=
   end.
 (* run-length helper for long generated texts *)
 Definition rep (n : N) (r : N) : list N := repeat r (N.to_nat n).
+
+(* observation: the parts returned TOGETHER WITH AN ERROR in the multi-part path *)
+Definition returned_obs_ok {P} (eqp : P -> P -> bool) (l : list (part P)) (ps : list (udh * P)) : bool :=
+  all2 (fun a b => beq_udh (pt_udh a) (fst b) && eqp (pt_payload a) (snd b)) l ps.
